@@ -220,6 +220,19 @@ func c13Summaries(c *mc.Check, maxN int) {
 			}
 		}
 	}
+	// Confidence levels just below, at and just above every coverage value a
+	// symmetric order-statistic interval can have for n ≤ 14: neighbouring
+	// levels must not share an answer.
+	for n := 2; n <= 14; n++ {
+		for l := 1; 2*l <= n+1; l++ {
+			cov := ref.BinomialCoverage(n, l, n+1-l)
+			for _, d := range []float64{-1e-9, 0, 1e-9} {
+				if cf := cov + d; cf > 0 && cf < 1 {
+					jobs = append(jobs, job{n, cf, "increasing"})
+				}
+			}
+		}
+	}
 	for pass := 0; pass < 2; pass++ {
 		for i := range jobs {
 			j := jobs[i]
